@@ -1408,3 +1408,7 @@ mod tests {
         assert!(cookie.is_some());
     }
 }
+
+#[cfg(feature = "pendulum_project_ntpd_rs_verif")]
+#[path = "/verif/hooks/ntp-proto/packet_extension_fields.rs"]
+pub mod verif_hooks;
